@@ -12,6 +12,9 @@ fn main() {
         std::process::exit(2);
     }
     common::install_panic_hook();
+    // every sequential engine runs with the sequential lock hook: worker threads of the pool and the main thread
+    rayon::ThreadPoolBuilder::new().start_handler(|_| common::seqhook::install()).build_global().expect("thread pool");
+    common::seqhook::install();
     if args[1] == "child" {
         std::process::exit(props::child(&args[2..]));
     }
